@@ -496,7 +496,7 @@ def judge_harness(ctx, hr, prog, what):
     return doc
 
 
-def validate_traces(ctx, trace_files, prog_of, max_events, tier_note=""):
+def validate_traces(ctx, trace_files, prog_of, max_events, with_negative=False):
     """Normalise + validate.  Returns stats."""
     jobs = []
     for tf in trace_files:
@@ -504,7 +504,22 @@ def validate_traces(ctx, trace_files, prog_of, max_events, tier_note=""):
             recs, idx, nb, nf = normalise_log(f)
         for recs_c, idx_c in chunk_segments(recs, idx, max_events):
             jobs.append((tf, recs_c, idx_c))
-    results = vlib.pmap(lambda j: validate_chunk(ctx, j[1], j[2], os.path.basename(j[0])), jobs, workers=4)
+    neg, neg_error = [], None
+    if with_negative:
+        try:
+            neg = negative_tests(ctx, jobs)
+        except Inconclusive as e:   # reported at the end, after the verdicts on the real traces
+            neg_error = str(e)
+    allres = vlib.pmap(lambda j: validate_chunk(ctx, j[1], j[2], j[0]),
+                       [(os.path.basename(j[0]), j[1], j[2]) for j in jobs] +
+                       [("neg:" + t[0], t[1], [("neg", {})] * len(t[1])) for t in neg], workers=6)
+    results = allres[:len(jobs)]
+    negres = None
+    if with_negative and neg_error is None:
+        try:
+            negres = judge_negative(neg, allres[len(jobs):])
+        except Inconclusive as e:
+            neg_error = str(e)
     st = {"files": len(trace_files), "chunks": len(jobs), "events": 0, "states": 0, "generated": 0, "segments": 0,
           "accepted_chunks": 0, "drift_steps": 0, "stuck": [], "violations": 0, "tlc_wall": 0.0, "samples": []}
     for (tf, recs_c, idx_c), res in zip(jobs, results):
@@ -536,25 +551,24 @@ def validate_traces(ctx, trace_files, prog_of, max_events, tier_note=""):
             st["stuck"].append({"segment": seg, "record": at, "event": ctxt[-2:] if ctxt else []})
             ctx.note("drift: trace %s is not a behaviour of IRBuild at record %d (%s); no property-level predicate failed"
                      % (seg, at, json.dumps(idx_c[at][1])[:300] if 0 <= at < len(idx_c) else "?"))
+    st["negative_selftest"] = negres
+    st["negative_error"] = neg_error
     return st, jobs, results
 
 
-def negative_selftest(ctx, jobs, results):
-    """Corrupted logs must not be accepted."""
-    pick = None
-    for (tf, recs_c, idx_c), res in zip(jobs, results):
-        if res["status"] == "accepted" and res["drift"] == 0 and any(r["ev"] == "hit" and r["e"] for r in recs_c):
-            pick = recs_c
-            break
-    if pick is None:
-        raise Inconclusive("negative self-test: no accepted trace with an edge-adding hit available")
-    # keep the test small: cut after the first complete program that contains an edge-adding hit
-    bounds = [i for i, r in enumerate(pick) if r["ev"] == "reset"] + [len(pick)]
+def negative_tests(ctx, jobs):
+    """Corrupted logs must not be accepted.  Returns [(name, records, predicate)]."""
     seg = None
-    for a, b in zip(bounds, bounds[1:]):
-        if any(r["ev"] == "hit" and r["e"] for r in pick[a:b]):
-            seg = pick[a:b]
+    for (tf, recs_c, idx_c) in jobs:
+        bounds = [i for i, r in enumerate(recs_c) if r["ev"] == "reset"] + [len(recs_c)]
+        for a, b in zip(bounds, bounds[1:]):
+            if any(r["ev"] == "hit" and r["e"] for r in recs_c[a:b]) and b - a < 3000:
+                seg = recs_c[a:b]
+                break
+        if seg:
             break
+    if seg is None:
+        raise Inconclusive("negative self-test: no recorded program with an edge-adding hit available")
     base = json.loads(json.dumps(seg))
     tests = []
     # (a) one field: the edge of a hit is dropped -> drift "edge" (the spec demands the edge)
@@ -584,17 +598,104 @@ def negative_selftest(ctx, jobs, results):
     m = next(r for r in t if r["ev"] == "markdone")
     m["b"] = m["b"] % max(2, max(r["b"] for r in t)) + 1
     tests.append(("markdone.b corrupted", t, lambda res: res["status"] != "accepted"))
-    outcomes = vlib.pmap(lambda x: validate_chunk(ctx, x[1], [("neg", {})] * len(x[1]), "neg:" + x[0]), tests, workers=3)
+    tests.insert(0, ("uncorrupted", base, lambda res: res["status"] == "accepted" and res["drift"] == 0))
+    if ctx.quick:
+        tests = tests[:3]
+    return tests
+
+
+def judge_negative(tests, outcomes):
     got = []
     for (name, _, ok), res in zip(tests, outcomes):
         got.append({"corruption": name, "status": res["status"], "viol": res.get("viol", ""), "drift": res["drift"]})
         if not ok(res):
-            raise Inconclusive("negative self-test: corrupted trace (%s) was not rejected as expected: %s" % (name, got[-1]))
+            raise Inconclusive("negative self-test: trace (%s) was not judged as expected: %s" % (name, got[-1]))
     return got
 
 
 STD_QUICK = "container/list,container/ring,sort"
 STD_THOROUGH = "container/list,container/ring,container/heap,sort,slices,maps,strings,bytes,sync,errors,unicode/utf8,strconv,math/rand/v2"
+
+
+# ---------------------------------------------------------------------------------------------
+# R: TLC behaviours forced onto the real builder
+# ---------------------------------------------------------------------------------------------
+
+RMOD = "ex.test/r"
+
+
+def gate_program_files(k, rootrefs, fnrefs):
+    """Realise an abstract program of MCIRBuild: shared function i = lib.G<i>[int]."""
+    ns = len(fnrefs)
+    lib = ["package lib\n\nvar stop bool\n"]
+    for f in range(1, ns + 1):
+        calls = "".join("\t_ = G%d[T](x)\n" % g for g in fnrefs[f - 1])
+        lib.append("func G%d[T any](x T) T {\n\tif stop {\n\t\treturn x\n\t}\n%s\treturn x\n}\n" % (f, calls))
+    files = {"r%d/lib/lib.go" % k: "\n".join(lib)}
+    for b in (1, 2):
+        calls = "".join("\t_ = lib.G%d[int](%d)\n" % (g, g) for g in rootrefs[b - 1])
+        files["r%d/u%d/u.go" % (k, b)] = "package u%d\n\nimport \"%s/r%d/lib\"\n\nfunc F() {\n%s}\n" % (b, RMOD, k, calls)
+    return files
+
+
+def forced_schedules(ctx, helper):
+    quick = ctx.quick
+    r1 = vlib.run_tlc(ctx, "MCIRBuild", "MCIRBuild_gen1.cfg", workers=4, timeout=3000)
+    vlib.tlc_require_ok(r1, "generation config gen1")
+    r2 = vlib.run_tlc(ctx, "MCIRBuild", "MCIRBuild_gen2.cfg", workers=1, timeout=3000, simulate="num=%d" % (400 if quick else 4000),
+                      depth=80, seed=ctx.seed)
+    vlib.tlc_require_ok(r2, "generation config gen2")
+    if not r1.cases or not r2.cases:
+        raise Inconclusive("TLC emitted no behaviour for the forced-schedule replay")
+    seen, cases1, cases2 = set(), [], []
+    for src, dst in ((r1.cases, cases1), (r2.cases, cases2)):
+        for c in src:
+            key = json.dumps([c["rootrefs"], c["fnrefs"], [s["b"] for s in c["steps"]]])
+            if key not in seen:
+                seen.add(key)
+                dst.append(c)
+    chosen = (vlib.sample(ctx, cases1, 60) + vlib.sample(ctx, cases2, 60)) if quick else (cases1 + vlib.sample(ctx, cases2, 2500))
+    progs, files, gcases = {}, {"go.mod": "module %s\n\ngo 1.22\n" % RMOD}, []
+    for i, c in enumerate(chosen):
+        pk = json.dumps([c["rootrefs"], c["fnrefs"]])
+        if pk not in progs:
+            progs[pk] = len(progs)
+            files.update(gate_program_files(progs[pk], c["rootrefs"], c["fnrefs"]))
+        gcases.append({"id": i, "prog": "%s/r%d" % (RMOD, progs[pk]), "schedule": [s["b"] for s in c["steps"]]})
+    d = ctx.tmp("gate")
+    write_module(d, files)
+    rc, so, se = vlib.sh(["go", "vet", "./..."], cwd=d, env=vlib.go_env(), timeout=1200)
+    if rc != 0:
+        raise Inconclusive("forced-schedule programs do not compile (generator bug): %s" % se[-3000:])
+    cpath, out, tr = os.path.join(d, "cases.json"), os.path.join(d, "gate-res.json"), os.path.join(d, "gate-trace.ndjson")
+    with open(cpath, "w") as f:
+        json.dump(gcases, f)
+    rc, so, se = vlib.sh([helper, "-dir", d, "-patterns", "./...", "-gate", cpath, "-out", out, "-trace", tr], cwd=d, env=vlib.go_env(), timeout=7200)
+    if rc != 0 or not os.path.exists(out):
+        if "panic:" in se:
+            i = se.index("panic:")
+            ctx.violation(vlib.canon_key({"forced": "panic", "msg": re.sub(r"0x[0-9a-f]+", "", se[i:].splitlines()[0][:200])}),
+                          "build crashed under a forced schedule: %s" % se[i:].splitlines()[0][:200],
+                          {"kind": "forced", "oracle": "panic", "report": se[i:i + 6000]})
+            return {"cases": len(gcases), "crashed": True}, None
+        raise Inconclusive("h-irbuild -gate failed rc=%s: %s" % (rc, se[-3000:]))
+    doc = json.load(open(out))
+    steps = followed = deferred = 0
+    for g, c in zip(doc["gate"], chosen):
+        steps += g["steps"]
+        followed += g["followed"]
+        deferred += g["deferred"]
+        for v in g["violations"]:
+            abstract = {"rootrefs": c["rootrefs"], "fnrefs": c["fnrefs"], "schedule": [s["b"] for s in c["steps"]]}
+            ctx.violation(vlib.canon_key({"forced": v["kind"], "rootrefs": c["rootrefs"], "fnrefs": c["fnrefs"]}),
+                          "forced schedule: %s: %s" % (v["kind"], v["what"]),
+                          {"kind": "forced", "oracle": v["kind"], "abstract": abstract, "tlc_steps": c["steps"], "executed_order": g["order"],
+                           "files": {k: v2 for k, v2 in files.items() if k == "go.mod" or k.startswith(g["prog"].split("/")[-1] + "/")}, "detail": v})
+    stats = {"tlc_gen1": {"states": r1.distinct, "behaviours": len(cases1)}, "tlc_gen2_simulated_behaviours": len(cases2),
+             "programs": len(progs), "cases_forced": len(gcases), "gate_steps": steps, "schedule_entries_followed": followed,
+             "schedule_entries_deferred": deferred, "exhaustive_1fn": not quick,
+             "sample": {"program": json.loads(next(iter(progs))), "schedule": gcases[0]["schedule"], "executed": doc["gate"][0]["order"]}}
+    return stats, tr
 
 
 def tlc_exhaustive(ctx):
@@ -653,7 +754,11 @@ def run(ctx):
     # 1. exhaustive TLC (runs while the programs are being built)
     from concurrent.futures import ThreadPoolExecutor
     ex = ThreadPoolExecutor(max_workers=2)
-    tlc_future = ex.submit(tlc_exhaustive, ctx)
+    if os.environ.get("C18_DEV_SKIP_TLC"):   # development aid for mutation trials only; evidence says so
+        tlc_future = ex.submit(lambda: {"SKIPPED.cfg": {"states": 0, "transitions": 0, "wall_s": 0}, "MCIRBuild_q.cfg": {"states": 0, "transitions": 0, "wall_s": 0}})
+        ctx.note("C18_DEV_SKIP_TLC set: exhaustive TLC skipped (development run, not a valid evidence run)")
+    else:
+        tlc_future = ex.submit(tlc_exhaustive, ctx)
     sens_future = ex.submit(model_sensitivity, ctx) if not quick else None
 
     # 2. programs
@@ -701,7 +806,10 @@ def run(ctx):
         jobs.append(("race", stdp, dict(binary=helper_race, moddir=stdmod, outdir=work, tag="std-race", seed=ctx.seed * 1000 + 98, create="all",
                                         modes="I", scenarios="parallel,perpkg,conc4", runs=1, initial="", ondemand=ondemand, mvmax=mvmax,
                                         patterns=STD_THOROUGH, trace=False)))
+    import time as _t
+    t_h = _t.time()
     hres = vlib.pmap(lambda j: run_harness(ctx, **j[2]), jobs, workers=3)
+    t_h = _t.time() - t_h
     trace_files, prog_of = [], {}
     nruns = nfuncs = nshared = mv = nrace_runs = 0
     sample_runs = []
@@ -723,18 +831,31 @@ def run(ctx):
             trace_files.append(hr["trace"])
             prog_of[hr["trace"]] = progdesc
 
+    # 3b. forced schedules (R)
+    t_g = _t.time()
+    gstats, gtrace = forced_schedules(ctx, helper)
+    t_g = _t.time() - t_g
+    if gtrace:
+        trace_files.append(gtrace)
+        prog_of[gtrace] = {"name": "forced schedules", "files": {}, "patterns": "./...", "initial": ""}
+
     # 4. trace validation
-    tstats, tjobs, tresults = validate_traces(ctx, trace_files, prog_of, max_events=12000 if quick else 20000)
-    neg = negative_selftest(ctx, tjobs, tresults)
+    t_v = _t.time()
+    tstats, tjobs, tresults = validate_traces(ctx, trace_files, prog_of, max_events=8000 if quick else 20000, with_negative=True)
+    t_v = _t.time() - t_v
+    neg = tstats.pop("negative_selftest")
+    neg_error = tstats.pop("negative_error")
 
     tlc = tlc_future.result()
     sens = sens_future.result() if sens_future else None
+    if neg_error and not ctx.violations:
+        raise Inconclusive(neg_error)
 
     main_cfg = tlc["MCIRBuild_q.cfg"]
     ctx.coverage = {
         "states": sum(v["states"] for k, v in tlc.items() if k.endswith(".cfg")),
         "transitions": sum(v["transitions"] for k, v in tlc.items() if k.endswith(".cfg")),
-        "traces_validated_against_impl": tstats["segments"],
+        "traces_validated_against_impl": tstats["segments"],   # programs built for real (incl. forced schedules) whose log was validated
         "exhaustive": True,
         "tlc": tlc,
         "tlc_invariants": ["TypeOK", "CreatedOnce", "CreatedOnceStep", "BuiltAtReturn", "CallerSeesBuilt", "NoEdgeAfterDone", "Idempotent",
@@ -742,6 +863,8 @@ def run(ctx):
         "model_sensitivity": sens,
         "trace_validation": {k: v for k, v in tstats.items() if k != "samples"},
         "negative_selftest": neg,
+        "phase_wall_s": {"real_builds": round(t_h, 1), "forced_schedules": round(t_g, 1), "trace_validation_and_negative_selftest": round(t_v, 1)},
+        "forced_schedules": gstats,
         "real_builds": nruns,
         "real_builds_under_race_detector": nrace_runs,
         "functions_dumped_and_compared": nfuncs,
@@ -760,9 +883,35 @@ def run(ctx):
     ]
 
 
+def replay_forced(ctx, doc):
+    case = doc["case"]
+    helper = vlib.go_build_harness(ctx, "cmd/h-irbuild")
+    d = ctx.tmp("replay-gate")
+    files = case.get("files") or {}
+    if not files:
+        raise Inconclusive("replay file has no program")
+    write_module(d, files)
+    progdir = sorted(k.split("/")[0] for k in files if "/" in k)[0]
+    cpath, out, tr = os.path.join(d, "cases.json"), os.path.join(d, "gate-res.json"), os.path.join(d, "gate-trace.ndjson")
+    with open(cpath, "w") as f:
+        json.dump([{"id": 0, "prog": "%s/%s" % (RMOD, progdir), "schedule": case["abstract"]["schedule"]}], f)
+    rc, so, se = vlib.sh([helper, "-dir", d, "-patterns", "./...", "-gate", cpath, "-out", out, "-trace", tr], cwd=d, env=vlib.go_env(), timeout=3000)
+    if rc != 0 or not os.path.exists(out):
+        if "panic:" in se:
+            ctx.violation(doc["key"], doc["what"], case)
+            return
+        raise Inconclusive("h-irbuild -gate failed rc=%s: %s" % (rc, se[-3000:]))
+    for g in json.load(open(out))["gate"]:
+        for v in g["violations"]:
+            ctx.violation(doc["key"], "forced schedule: %s: %s" % (v["kind"], v["what"]), dict(case, detail=v, executed_order=g["order"]))
+    validate_traces(ctx, [tr], {tr: {}}, 20000)
+
+
 def replay(ctx):
     doc = json.load(open(ctx.replay))
     case = doc["case"]
+    if case.get("kind") == "forced":
+        return replay_forced(ctx, doc)
     prog = case.get("program") or {}
     helper = vlib.go_build_harness(ctx, "cmd/h-irbuild", race=case.get("kind") == "race")
     work = ctx.tmp("replay")
